@@ -20,6 +20,7 @@ import (
 	"path/filepath"
 	"regexp"
 	"sort"
+	"strconv"
 	"strings"
 	"sync"
 	"testing"
@@ -171,7 +172,43 @@ func TestMain(m *testing.M) {
 	if iso.IsWorker() {
 		iso.WorkerMain(entries)
 	}
+	if spec := os.Getenv("VERIF_FUZZ_TO_REPLAY"); spec != "" {
+		os.Exit(fuzzToReplay(spec))
+	}
 	vr.Main(m)
+}
+
+// fuzzToReplay converts a crasher written by the native fuzzer ("go test fuzz v1" corpus file with one
+// []byte argument) into an ordinary replay file. spec = corpusfile;entry;ext;target;outfile
+func fuzzToReplay(spec string) int {
+	f := strings.Split(spec, ";")
+	if len(f) != 5 {
+		return 3
+	}
+	b, err := os.ReadFile(f[0])
+	if err != nil {
+		fmt.Println("INFRA:", err)
+		return 3
+	}
+	lines := strings.SplitN(string(b), "\n", 3)
+	if len(lines) < 2 || !strings.HasPrefix(lines[1], "[]byte(") {
+		fmt.Println("INFRA: unexpected corpus file format")
+		return 3
+	}
+	q := strings.TrimSuffix(strings.TrimPrefix(strings.TrimSpace(lines[1]), "[]byte("), ")")
+	payload, err := strconv.Unquote(q)
+	if err != nil {
+		fmt.Println("INFRA: cannot unquote corpus entry:", err)
+		return 3
+	}
+	c := Case{Entry: f[1], Ext: f[2], Fault: "found by native fuzzing (" + f[3] + ")", Payload: []byte(payload)}
+	raw, _ := json.MarshalIndent(c, "", " ")
+	rf := vr.ReplayFile{Property: "C02", Check: "robust", Error: "crasher reported by go test -fuzz=" + f[3], Case: raw}
+	out, _ := json.MarshalIndent(rf, "", " ")
+	if err := os.WriteFile(f[4], out, 0o644); err != nil {
+		return 3
+	}
+	return 0
 }
 
 // ---------------------------------------------------------------------------
